@@ -72,15 +72,17 @@ Section GC.
               let requeue w := match assoc (d_dig d) subjects with Some r => w ++ [r] | None => w end in
               (* the referrers response of a subject is queued once: its entry leaves the map *)
               let subjects1 := assoc_del (d_dig d) subjects in
-              if mt_index (d_mt d) then
-                if j_ok_i v then mark f (requeue (work' ++ j_manifests v)) subjects1 seen1 walked1 inidx'
-                else mark f work' subjects seen1 walked1 inidx'   (* decode error: `continue`, the referrers are not queued *)
-              else if mt_image (d_mt d) then
-                if j_ok_m v then
-                  let seen2 := (match j_config v with Some c => d_dig c | None => "" end)
-                                 :: map d_dig (j_layers v) ++ seen1 in
-                  mark f (requeue work') subjects1 seen2 walked1 inidx'
-                else mark f work' subjects seen1 walked1 inidx'
+              if mt_index (d_mt d) || mt_image (d_mt d) then
+                (* the media type is the claim of the entry that lists the digest (an index may list an image as an index or the
+                   reverse) and a manifest is walked once: the blob is read as both kinds *)
+                if negb (j_ok_i v) && negb (j_ok_m v) then
+                  mark f work' subjects seen1 walked1 inidx'   (* decode errors: `continue`, the referrers are not queued *)
+                else
+                  let kids := if j_ok_i v then j_manifests v else [] in
+                  let seen2 := if j_ok_m v then (match j_config v with Some c => d_dig c | None => "" end)
+                                                  :: map d_dig (j_layers v) ++ seen1
+                               else seen1 in
+                  mark f (requeue (work' ++ kids)) subjects1 seen2 walked1 inidx'
               else mark f (requeue work') subjects1 seen1 walked1 inidx'
         end
     end.
